@@ -175,8 +175,26 @@ def run_history(style, h, ctx, d, shape=None, two_dirs=False):
     nontrivial = False
     desc = dict(style=style, history=h, shape=shape)
     swap_holder = {}
+    desc["coarse_timestamps"] = int(harness.h([style, h, "coarse"], 4), 16) % 4 == 0
     style_key = style + (":" + shape if shape else "")
+    # one history in four lives on a file system with COARSE timestamps (FAT, ext3, many network mounts: 1-2 s): every
+    # func_code.py written during the history carries one and the same modification time (and the versions' texts have one length)
+    coarse = int(harness.h([style, h, "coarse"], 4), 16) % 4 == 0
+    if coarse:
+        ctx.count("histories_on_a_file_system_with_coarse_timestamps")
+
+    def coarsen():
+        for c in (cache, cache + "_b"):
+            for dp, _, fns in os.walk(c):
+                if "func_code.py" in fns:
+                    try:
+                        os.utime(os.path.join(dp, "func_code.py"), (1_700_000_000, 1_700_000_000))
+                    except OSError:
+                        pass
+
     for idx, s in enumerate(h):
+        if coarse:
+            coarsen()
         with warnings.catch_warnings():
             warnings.simplefilter("ignore")
             if s[0] == "def":
